@@ -72,6 +72,15 @@ func (b behaviour) clean() (summary string, panics bool) {
 			if st == 0 {
 				hset = true
 			}
+		case s == "W0" || s == "W999":
+			// an out-of-range status makes WriteHeader itself panic (net/http's rule): like P
+			if st == 0 {
+				st = 500
+				if hset {
+					x = "1"
+				}
+			}
+			return fmt.Sprintf("%d|X-H=%s|%q", st, x, body), true
 		case strings.HasPrefix(s, "W"):
 			if st == 0 {
 				fmt.Sscanf(s, "W%d", &st)
@@ -163,6 +172,8 @@ func guardBehaviours() []behaviour {
 		{"S50", "P"},
 		{"S150", "P"},
 		{"W500", "Bx"},
+		{"W0"},
+		{"S50", "W999"},
 	}
 }
 
